@@ -8,245 +8,110 @@ From ClapModel Require Import Base.Bytes Base.Machine Base.Utf8 Lex.OsStrExtMode
 From ClapModel Require Import Parse.Cmd Parse.Build Parse.Valid Parse.Matcher Parse.Errors Parse.Validator Parse.Parser.
 From ClapModel Require Import ParseProofs.Safe ParseProofs.Invariant ParseProofs.Totality ParseProofs.TotalityMain
   ParseProofs.Sources ParseProofs.Spelling ParseProofs.Dispatch ParseProofs.Provenance
-  ParseProofs.Escape ParseProofs.EscapeWalk ParseProofs.EscapeStore ParseProofs.EscapeSub.
+  ParseProofs.Escape ParseProofs.EscapeWalk ParseProofs.EscapeStore ParseProofs.EscapeSub ParseProofs.EscapeLevel ParseProofs.EscapeChain.
 From Coq Require Import ZArith Lia List Bool.
 From RecordUpdate Require Import RecordSet.
 Import RecordSetNotations.
 Import ListNotations.
 Open Scope N_scope.
 
-(** what the storing step needs of a level *)
-Definition lvl_store (c : cmd) : Prop :=
-  (forall a, In a (c_args c) -> a_takes_value a = true -> a_get_action a = ASet \/ a_get_action a = AAppend)
-  /\ (forall a, In a (c_args c) -> find_group c (a_id a) = None).
-
-Lemma lvl_store_of_wfc c : Totality.wfc c -> assert_app c = true -> lvl_store c.
-Proof.
-  intros (W1 & W2 & W3 & W4 & W5) Happ. split.
-  - intros a Hin Ht. destruct (TotalityMain.assert_app_arg _ _ Happ Hin) as [Haa _].
-    unfold assert_arg in Haa. repeat (apply andb_true_iff in Haa as [Haa ?]).
-    match goal with Hi : (vmax _ <=? vmax _) = true |- _ => rename Hi into HI end.
-    unfold a_takes_value, r_takes_values in Ht. apply negb_true_iff, N.eqb_neq in Ht.
-    destruct (a_get_action a); auto; cbn in HI; apply N.leb_le in HI; exfalso; lia.
-  - intros a Hin. destruct (find_group c (a_id a)) as [g|] eqn:Eg; [|reflexivity]. exfalso.
-    unfold find_group in Eg. apply List.find_some in Eg. destruct Eg as [Hg Hb]. apply beq_eq in Hb.
-    pose proof (Provenance.assert_app_groups_sane c Happ g Hg) as Hs. rewrite Hb, (W3 a Hin) in Hs. discriminate.
-Qed.
-
-Section LevelTop.
+Section LevelThm.
 Variable c : cmd.
 Hypothesis Hl : lvl c.
 Hypothesis Hst : lvl_store c.
 Hypothesis Hnh : forall a, In a (c_args c) -> a_hyphen a = false.
 Hypothesis Hdd : forall vaf, possible_subcommand c dashdash vaf = None.
-
 Let W3 := proj1 Hl.
 Let WP := proj1 (proj2 Hl).
-Let WD := proj2 (proj2 Hl).
 
-(** the class: after the escape every token goes to the multi-valued positional [a], whatever the
-    positional counter is (a [last] positional / [allow_missing_positional]), or the counter
-    cannot move ([sticky]) and [a] is the positional at its initial value *)
-Definition sink_from (pc0 : N) (a : arg) : Prop :=
-  (forall pc, sink_arg c pc = Some a) \/ (sticky c = true /\ sink_arg c pc0 = Some a).
+(** (3), one level: a successful [get_matches_with] on [pre ++ -- :: t] has stored [t]: at the end of the
+    last value group of the sink positional (class [sink_from]), or distributed over the single-valued
+    positionals and the multi-valued one that follow the counter (class [chainc]; [x] is [[]], or [[--]]
+    when the loop was in trailing mode already -- [trailing_var_arg] -- and the [--] itself is a value);
+    the loop ended with [LDone] and no subcommand was recorded -- unless [pre] itself dispatched to a
+    subcommand or an external subcommand, which then receives [-- :: t] unread *)
+Definition consumed_sink (t : list bytes) (st0 st' : ps) (lr : res loop_res) : Prop :=
+  forall a, sink_from c 1 a ->
+    exists st1 e gs early' t',
+      lr = ROk (LDone st1) /\ mt_sub (mt st') = mt_sub (mt st0) /\
+      get_entry (a_id a) st' = Some e /\ m_raw e = gs ++ [early' ++ t'] /\ m_source e = Some SCmdLine /\
+      tail_form c a t = Some t'.
+Definition consumed_chain (t : list bytes) (st0 st' : ps) (lr : res loop_res) : Prop :=
+  chainc c = true ->
+    exists st1 x pc,
+      lr = ROk (LDone st1) /\ mt_sub (mt st') = mt_sub (mt st0) /\
+      chain_filled c (fun y => get_entry y st') pc (x ++ t).
 
-Lemma sink_from_at pc0 a q : sink_from pc0 a -> (sticky c = true -> q = pc0) -> sink_arg c q = Some a.
-Proof. intros [H|[Hs H]] Hq; [apply H|rewrite (Hq Hs); exact H]. Qed.
-
-Lemma sink_in pc a : sink_arg c pc = Some a -> In a (c_args c) /\ a_index a <> None.
-Proof. intros H. destruct (sink_arg_spec c _ _ H) as (_ & Hg & _). exact (get_pos_in _ _ _ Hg). Qed.
-
-Lemma pend_ti_le st : TV c st -> pend_ti (mt st) <= N.of_nat (length (pend_raw (mt st))).
-Proof.
-  intros H. unfold pend_ti, pend_raw. destruct (mt_pending (mt st)) as [p|] eqn:E; [|cbn; lia].
-  destruct (p_trailing_idx p) as [t0|] eqn:Et; [|lia]. exact (proj2 (H p E) t0 Et).
-Qed.
-
-Lemma flush_sub a st st1 : flush_for c a st = ROk st1 -> mt_sub (mt st1) = mt_sub (mt st).
-Proof.
-  unfold flush_for. destruct (_ || _).
-  - intros E. pose proof (resolve_pending_sub c (mt_sub (mt st)) st eq_refl) as Hk. rewrite E in Hk. exact Hk.
-  - intros E. injection E as <-. reflexivity.
-Qed.
-
-(** in trailing mode at a sink the loop can only end with [LDone] *)
-Lemma trailing_sink_done toks ls st lr a :
-  l_trailing ls = true -> sink_arg c (l_pos ls) = Some a -> parse_loop c toks ls st = ROk lr ->
-  exists st1, lr = LDone st1.
-Proof.
-  intros Htr Hs E.
-  destruct (trailing_outcome c toks ls st Htr) as [ls' st2 _ Er|pre tok rest ls1 st1 Eq Hr Hstop].
-  - rewrite E in Er. injection Er as ->. eexists; reflexivity.
-  - exfalso. rewrite E in Hstop. pose proof (truns_sink c _ _ _ _ _ _ _ Hs Hr) as Hs1.
-    destruct (sink_arg_spec c _ _ Hs1) as (Hlow & Hg & _).
-    inversion Hstop as [| pc' Hpc Hgn _ | |]; subst.
-    rewrite (pos_correct_sink c _ _ _ Hlow) in Hpc. injection Hpc as <-. rewrite Hg in Hgn. discriminate.
-Qed.
-
-(** after the loop and [resolve_pending]: the entry of the sink positional ends with the tail,
-    every entry outside [touched a] is the one of the state [flush_for a st] *)
-Lemma trailing_sink_store x t ls st st1 st2 a :
-  l_trailing ls = true -> sink_arg c (l_pos ls) = Some a -> TV c st -> t <> [] ->
-  parse_loop c (x ++ t) ls st = ROk (LDone st1) -> resolve_pending c st1 = ROk st2 ->
-  exists st0 e gs early' t',
-    flush_for c a st = ROk st0 /\
-    get_entry (a_id a) st2 = Some e /\ m_raw e = gs ++ [early' ++ t'] /\ m_source e = Some SCmdLine /\
-    tail_form c a t = Some t' /\ mt_pending (mt st2) = None /\
-    (forall y, touched c a y = false -> get_entry y st2 = get_entry y st0) /\
-    mt_sub (mt st2) = mt_sub (mt st0).
-Proof.
-  intros Htr Hs HTV Ht E Er.
-  destruct (x ++ t) as [|tok tail] eqn:Ext; [destruct x; [contradiction|discriminate]|].
-  destruct (trailing_done_sink c tok tail ls st st1 a Htr Hs E)
-    as (st0 & p & F & Hp & Hid & Hraw & Hti & Hargs & Hsub & _).
-  apply beq_eq in Hid. destruct (sink_in _ _ Hs) as [Hin Hidx].
-  assert (Hf : find_arg c (p_id p) = Some a) by (rewrite Hid; apply W3; exact Hin).
-  pose proof (flush_TV c a st st0 HTV F) as HTV0.
-  rewrite <- Ext, app_assoc in Hraw.
-  assert (Hk : pend_ti (mt st0) <= N.of_nat (length (pend_raw (mt st0) ++ x))).
-  { pose proof (pend_ti_le st0 HTV0). rewrite app_length. lia. }
-  destruct (sink_resolve c st1 p a _ t _ st2 (proj2 Hst a Hin) (proj1 Hst a Hin (WP a Hin Hidx)) Hp Hf Hraw Ht Hti Hk Er)
-    as (e & gs & early' & t' & G1 & G2 & G3 & _ & G5 & G6).
-  exists st0, e, gs, early', t'. repeat split; try assumption.
-  - intros y Hy. rewrite (resolve_pending_frame c st1 st2 p a y Hp Hf Hy Er). unfold get_entry. rewrite Hargs. reflexivity.
-  - pose proof (resolve_pending_sub c (mt_sub (mt st1)) st1 eq_refl) as Hk2. rewrite Er in Hk2. cbn in Hk2.
-    unfold Dispatch.S_ in Hk2. congruence.
-Qed.
-
-(** ** the phases after the loop *)
-Lemma post_ok_inv parsed st' : post c parsed = ROk st' ->
-  exists stp s2 s3, parsed = ROk stp /\ resolve_pending c stp = ROk s2 /\ add_env c s2 = ROk s3 /\
-                    add_defaults c s3 = ROk st'.
-Proof.
-  destruct parsed as [stp|e stp|x]; cbn [post]; [| |discriminate].
-  - destruct (resolve_pending c stp) as [s2|e2 s2|x2] eqn:E2; cbn [rbind]; try discriminate.
-    destruct (add_env c s2) as [s3|e3 s3|x3] eqn:E3; cbn [rbind]; try discriminate.
-    destruct (add_defaults c s3) as [s4|e4 s4|x4] eqn:E4; cbn [rbind]; try discriminate.
-    unfold vres_to_res. destruct (validate c (mt s4)); try discriminate.
-    intros H. injection H as <-. exists stp, s2, s3. auto.
-  - intros H. exfalso. destruct (is_set s_ignore_errors c); [|discriminate].
-    destruct (add_env c stp) as [s1|e1 s1|x1]; [| |discriminate];
-      (destruct (add_defaults c s1) as [s2|e2 s2|x2]; discriminate).
-Qed.
-
-Lemma phases_keep s2 s3 st' y e :
-  mt_pending (mt s2) = None -> add_env c s2 = ROk s3 -> add_defaults c s3 = ROk st' ->
-  find_group c y = None -> get_entry y s2 = Some e -> get_entry y st' = Some e.
-Proof.
-  intros Hp He Hd Hg Hy.
-  destruct (add_env_frame c s2 s3 Hp He) as (Hp3 & _ & Hk & _).
-  destruct (add_defaults_frame c s3 st' Hp3 Hd) as (_ & _ & _ & Hk2 & _).
-  apply Hk2. apply Hk; assumption.
-Qed.
-
-Lemma phases_cmdline s2 s3 st' y e :
-  mt_pending (mt s2) = None -> add_env c s2 = ROk s3 -> add_defaults c s3 = ROk st' ->
-  find_group c y = None -> get_entry y st' = Some e -> m_source e = Some SCmdLine -> get_entry y s2 = Some e.
-Proof.
-  intros Hp He Hd Hg Hy Hsrc.
-  destruct (add_env_frame c s2 s3 Hp He) as (Hp3 & _ & Hk & Hnew & _).
-  destruct (add_defaults_frame c s3 st' Hp3 Hd) as (_ & _ & _ & Hk2 & Hnew2).
-  unfold get_entry in *.
-  destruct (fm_get y (mt_args (mt s2))) as [e2|] eqn:E2.
-  - rewrite (Hk2 _ _ (Hk _ _ Hg E2)) in Hy. exact Hy.
-  - exfalso. destruct (fm_get y (mt_args (mt s3))) as [e3|] eqn:E3.
-    + destruct (Hnew _ _ Hg E2 E3) as [Hs3 _]. rewrite (Hk2 _ _ E3) in Hy. injection Hy as <-. congruence.
-    + pose proof (Hnew2 _ _ E3 Hy). congruence.
-Qed.
-
-Definition ls0 : lstate := mkL PSValuesDone 1 false false.
-
-Lemma TV0 st0 : mt_pending (mt st0) = None -> TV c st0 /\ LTV c ls0.
-Proof. intros H. split; [apply TV_none; exact H|]. intros i Hi. discriminate. Qed.
-
-(** (1) for the states the loop is entered with (no pending occurrence: [ps_new], [sub_init]): a
-    help/version outcome of [pre ++ -- :: t] is the outcome of [pre ++ -- :: t2] for every tail [t2] *)
-Theorem display_not_from_tail_initial pre t t2 st0 e st' :
-  mt_pending (mt st0) = None ->
-  parse_loop c (pre ++ dashdash :: t) ls0 st0 = RErr e st' -> is_display (e_kind e) = true ->
-  parse_loop c (pre ++ dashdash :: t2) ls0 st0 = RErr e st'.
-Proof.
-  intros Hp0. destruct (TV0 st0 Hp0) as [HTV HLTV].
-  exact (display_not_from_tail c W3 WP Hnh Hdd WD pre t t2 ls0 st0 e st' HTV HLTV).
-Qed.
-
-(** (3), one level: a successful [get_matches_with] on [pre ++ -- :: t] has stored [t] (in its stored form) at the
-    end of the last value group of the sink positional and recorded no subcommand -- unless [pre] itself
-    dispatched to a subcommand or an external subcommand, which then receives [-- :: t] unread *)
 Theorem level_tail_verbatim f pre t st0 st' :
   t <> [] -> mt_pending (mt st0) = None ->
   get_matches_with (S f) c (pre ++ dashdash :: t) st0 = ROk st' ->
-  (forall a, sink_from 1 a ->
-    exists st1 e gs early' t',
-      parse_loop c (pre ++ dashdash :: t) ls0 st0 = ROk (LDone st1) /\
-      mt_sub (mt st') = mt_sub (mt st0) /\
-      get_entry (a_id a) st' = Some e /\ m_raw e = gs ++ [early' ++ t'] /\ m_source e = Some SCmdLine /\
-      tail_form c a t = Some t')
+  (consumed_sink t st0 st' (parse_loop c (pre ++ dashdash :: t) ls0 st0) /\
+   consumed_chain t st0 st' (parse_loop c (pre ++ dashdash :: t) ls0 st0))
   \/ (exists n k v st1 r, parse_loop c (pre ++ dashdash :: t) ls0 st0 = ROk (LSub n k v st1 (r ++ dashdash :: t)))
   \/ (exists tk r st1, parse_loop c (pre ++ dashdash :: t) ls0 st0 = ROk (LExternal tk (r ++ dashdash :: t) st1)).
 Proof.
   intros Ht Hp0 H. rewrite gmw_unfold in H.
-  destruct (post_ok_inv _ _ H) as (stp & s2 & s3 & Hparsed & Hr & He & Hd).
-  destruct (TV0 st0 Hp0) as [HTV HLTV].
+  destruct (post_ok_inv _ _ _ H) as (stp & s2 & s3 & Hparsed & Hr & He & Hd).
+  destruct (TV0 c st0 Hp0) as [HTV HLTV].
   pose proof (escape_line_one c W3 WP Hnh Hdd pre t ls0 st0 HTV HLTV) as Hs.
   unfold parsed_of in Hparsed. fold ls0 in Hparsed.
   remember (parse_loop c (pre ++ dashdash :: t) ls0 st0) as R eqn:ER.
   destruct Hs as [x ls' st1 Htr H1 Hpos Hsub|e1 s1|x|n k v s1 r|r s1|tk r s1]; cbn [rbind] in Hparsed; try discriminate Hparsed.
-  - left. intros a Hsink. symmetry in ER.
+  - left. symmetry in ER.
     destruct (parse_loop c (x ++ t) ls' st1) as [lr|e1 s1|x1] eqn:EL; cbn [rbind] in Hparsed; try discriminate Hparsed.
-    assert (Hsa : sink_arg c (l_pos ls') = Some a) by (apply (sink_from_at 1 a); [exact Hsink|exact (proj1 Hpos)]).
-    destruct (trailing_sink_done _ _ _ _ _ Htr Hsa EL) as [st1' ->]. injection Hparsed as ->.
-    destruct (trailing_sink_store x t ls' st1 stp s2 a Htr Hsa H1 Ht EL Hr)
-      as (stb & e & gs & early' & t' & F & G1 & G2 & G3 & G4 & G5 & _ & G7).
-    exists stp, e, gs, early', t'. split; [reflexivity|]. split.
-    + destruct (add_env_frame c s2 s3 G5 He) as (Hp3 & Hs3 & _).
-      destruct (add_defaults_frame c s3 st' Hp3 Hd) as (_ & Hs4 & _).
-      rewrite Hs4, Hs3, G7, (flush_sub _ _ _ F). exact Hsub.
-    + destruct (sink_in _ _ Hsa) as [Hin _].
-      split; [eapply phases_keep; [exact G5|exact He|exact Hd|exact (proj2 Hst a Hin)|exact G1]|]. auto.
+    split.
+    + intros a Hsink.
+      assert (Hsa : sink_arg c (l_pos ls') = Some a) by (apply (sink_from_at c 1 a); [exact Hsink|exact (proj1 Hpos)]).
+      destruct (trailing_sink_done c _ _ _ _ _ Htr Hsa EL) as [st1' ->]. injection Hparsed as ->.
+      destruct (trailing_sink_store c Hl Hst x t ls' st1 stp s2 a Htr Hsa H1 Ht EL Hr)
+        as (stb & e & gs & early' & t' & F & G1 & G2 & G3 & G4 & G5 & _ & G7).
+      exists stp, e, gs, early', t'. split; [reflexivity|]. split.
+      * destruct (add_env_frame c s2 s3 G5 He) as (Hp3 & Hs3 & _).
+        destruct (add_defaults_frame c s3 st' Hp3 Hd) as (_ & Hs4 & _).
+        rewrite Hs4, Hs3, G7, (flush_sub c _ _ _ F). exact Hsub.
+      * destruct (sink_in c _ _ Hsa) as [Hin _].
+        split; [eapply phases_keep; [exact G5|exact He|exact Hd|exact (proj2 Hst a Hin)|exact G1]|]. auto.
+    + intros Hch.
+      assert (Hrg : in_range c (l_pos ls')).
+      { apply (proj2 Hpos); [exact (proj1 (proj2 (chain_facts c Hch)))|exact (in_range_1 c Hch)]. }
+      destruct (chain_done c Hch _ _ _ _ Htr Hrg EL) as [st1' ->]. injection Hparsed as ->.
+      assert (Hne : x ++ t <> []) by (destruct x; [exact Ht|discriminate]).
+      pose proof (chain_run c Hl Hst Hch (x ++ t) ls' st1 stp s2 Hne Htr H1 EL Hr) as Hcf.
+      pose proof (Spelling.resolve_pending_clears c stp s2 Hr) as Hnone.
+      exists stp, x, (l_pos ls'). split; [reflexivity|]. split.
+      * destruct (add_env_frame c s2 s3 Hnone He) as (Hp3 & Hs3 & _).
+        destruct (add_defaults_frame c s3 st' Hp3 Hd) as (_ & Hs4 & _).
+        rewrite Hs4, Hs3.
+        pose proof (resolve_pending_sub c (mt_sub (mt stp)) stp eq_refl) as Hk. rewrite Hr in Hk. cbn in Hk.
+        unfold Dispatch.S_ in Hk. rewrite Hk, (chain_sub c Hch _ _ _ _ Htr EL). exact Hsub.
+      * eapply chain_filled_mono; [|exact Hcf]. intros a e Hin Hy. cbv beta in *.
+        eapply phases_keep; [exact Hnone|exact He|exact Hd|exact (proj2 Hst a Hin)|exact Hy].
   - right. left. exists n, k, v, s1, r. reflexivity.
   - right. right. exists tk, r, s1. reflexivity.
 Qed.
 
 (** ** (4), one level: what the options and flags before the [--] got does not depend on the tail *)
-Lemma trailing_base l ls st stl sr a :
-  l_trailing ls = true -> sink_arg c (l_pos ls) = Some a -> TV c st ->
-  parse_loop c l ls st = ROk (LDone stl) -> resolve_pending c stl = ROk sr ->
-  exists st0, flush_for c a st = ROk st0 /\ mt_pending (mt sr) = None /\
-              (forall y, touched c a y = false -> get_entry y sr = get_entry y st0) /\
-              mt_sub (mt sr) = mt_sub (mt st).
-Proof.
-  intros Htr Hs HTV E Er. destruct l as [|tok tail].
-  - cbn [parse_loop] in E. injection E as <-.
-    pose proof (Spelling.resolve_pending_clears c st sr Er) as Hnone.
-    assert (Hsub : mt_sub (mt sr) = mt_sub (mt st)).
-    { pose proof (resolve_pending_sub c (mt_sub (mt st)) st eq_refl) as Hk. rewrite Er in Hk. exact Hk. }
-    destruct (sink_in _ _ Hs) as [Hin _].
-    unfold flush_for.
-    destruct (negb (match pending_arg_id (mt st) with Some i => beq i (a_id a) | None => false end)
-              || negb (a_multiple_values a)) eqn:Eb.
-    + exists sr. split; [exact Er|]. split; [exact Hnone|]. split; [reflexivity|exact Hsub].
-    + exists st. split; [reflexivity|]. split; [exact Hnone|]. split; [|exact Hsub]. intros y Hy.
-      apply orb_false_elim in Eb. destruct Eb as [Eb _]. apply negb_false_iff in Eb.
-      unfold pending_arg_id in Eb. destruct (mt_pending (mt st)) as [p|] eqn:Ep; cbn [opt_map] in Eb; [|discriminate].
-      apply beq_eq in Eb.
-      apply (resolve_pending_frame c st sr p a y Ep); [rewrite Eb; apply W3; exact Hin|exact Hy|exact Er].
-  - destruct (trailing_sink_store [] (tok :: tail) ls st stl sr a Htr Hs HTV ltac:(discriminate) E Er)
-      as (st0 & _ & _ & _ & _ & F & _ & _ & _ & _ & G5 & G6 & G7).
-    exists st0. split; [exact F|]. split; [exact G5|]. split; [exact G6|]. rewrite G7. exact (flush_sub _ _ _ F).
-Qed.
+Definition same_sink (st0 s1 s2 : ps) (lr1 lr2 : res loop_res) : Prop :=
+  forall a, sink_from c 1 a ->
+    exists l1 l2,
+      lr1 = ROk (LDone l1) /\ lr2 = ROk (LDone l2) /\
+      mt_sub (mt s1) = mt_sub (mt st0) /\ mt_sub (mt s2) = mt_sub (mt st0) /\
+      forall y e, touched c a y = false -> find_group c y = None ->
+                  get_entry y s1 = Some e -> m_source e = Some SCmdLine -> get_entry y s2 = Some e.
+Definition same_chain (st0 s1 s2 : ps) (lr1 lr2 : res loop_res) : Prop :=
+  chainc c = true ->
+    exists l1 l2,
+      lr1 = ROk (LDone l1) /\ lr2 = ROk (LDone l2) /\
+      mt_sub (mt s1) = mt_sub (mt st0) /\ mt_sub (mt s2) = mt_sub (mt st0) /\
+      forall y e, (forall j a', get_pos c j = Some a' -> touched c a' y = false) -> find_group c y = None ->
+                  get_entry y s1 = Some e -> m_source e = Some SCmdLine -> get_entry y s2 = Some e.
 
 Theorem level_prefix_entries f pre t1 t2 st0 s1 s2 :
   mt_pending (mt st0) = None ->
   get_matches_with (S f) c (pre ++ dashdash :: t1) st0 = ROk s1 ->
   get_matches_with (S f) c (pre ++ dashdash :: t2) st0 = ROk s2 ->
-  (forall a, sink_from 1 a ->
-    exists l1 l2,
-      parse_loop c (pre ++ dashdash :: t1) ls0 st0 = ROk (LDone l1) /\
-      parse_loop c (pre ++ dashdash :: t2) ls0 st0 = ROk (LDone l2) /\
-      mt_sub (mt s1) = mt_sub (mt st0) /\ mt_sub (mt s2) = mt_sub (mt st0) /\
-      forall y e, touched c a y = false -> find_group c y = None ->
-                  get_entry y s1 = Some e -> m_source e = Some SCmdLine -> get_entry y s2 = Some e)
+  (same_sink st0 s1 s2 (parse_loop c (pre ++ dashdash :: t1) ls0 st0) (parse_loop c (pre ++ dashdash :: t2) ls0 st0) /\
+   same_chain st0 s1 s2 (parse_loop c (pre ++ dashdash :: t1) ls0 st0) (parse_loop c (pre ++ dashdash :: t2) ls0 st0))
   \/ (exists n k v st1 r,
         parse_loop c (pre ++ dashdash :: t1) ls0 st0 = ROk (LSub n k v st1 (r ++ dashdash :: t1)) /\
         parse_loop c (pre ++ dashdash :: t2) ls0 st0 = ROk (LSub n k v st1 (r ++ dashdash :: t2)))
@@ -255,37 +120,62 @@ Theorem level_prefix_entries f pre t1 t2 st0 s1 s2 :
         parse_loop c (pre ++ dashdash :: t2) ls0 st0 = ROk (LExternal tk (r ++ dashdash :: t2) st1)).
 Proof.
   intros Hp0 H1 H2. rewrite gmw_unfold in H1, H2.
-  destruct (post_ok_inv _ _ H1) as (p1 & r1 & e1 & Hparsed1 & Hr1 & He1 & Hd1).
-  destruct (post_ok_inv _ _ H2) as (p2 & r2 & e2 & Hparsed2 & Hr2 & He2 & Hd2).
-  destruct (TV0 st0 Hp0) as [HTV HLTV].
+  destruct (post_ok_inv _ _ _ H1) as (p1 & r1 & e1 & Hparsed1 & Hr1 & He1 & Hd1).
+  destruct (post_ok_inv _ _ _ H2) as (p2 & r2 & e2 & Hparsed2 & Hr2 & He2 & Hd2).
+  destruct (TV0 c st0 Hp0) as [HTV HLTV].
   pose proof (escape_line_sim c W3 WP Hnh Hdd pre t1 t2 ls0 st0 HTV HLTV) as Hs.
   unfold parsed_of in Hparsed1, Hparsed2. fold ls0 in Hparsed1, Hparsed2.
   remember (parse_loop c (pre ++ dashdash :: t1) ls0 st0) as R1 eqn:ER1.
   remember (parse_loop c (pre ++ dashdash :: t2) ls0 st0) as R2 eqn:ER2.
   destruct Hs as [x ls' st1 Htr HT Hpos Hsub|e0 s0|x|n k v s0 r|r s0|tk r s0];
     cbn [rbind] in Hparsed1, Hparsed2; try discriminate Hparsed1.
-  - left. intros a Hsink.
-    assert (Hsa : sink_arg c (l_pos ls') = Some a) by (apply (sink_from_at 1 a); [exact Hsink|exact (proj1 Hpos)]).
+  - left.
     destruct (parse_loop c (x ++ t1) ls' st1) as [lr1|? ?|?] eqn:EL1; cbn [rbind] in Hparsed1; try discriminate Hparsed1.
     destruct (parse_loop c (x ++ t2) ls' st1) as [lr2|? ?|?] eqn:EL2; cbn [rbind] in Hparsed2; try discriminate Hparsed2.
-    destruct (trailing_sink_done _ _ _ _ _ Htr Hsa EL1) as [l1 ->].
-    destruct (trailing_sink_done _ _ _ _ _ Htr Hsa EL2) as [l2 ->].
-    injection Hparsed1 as ->. injection Hparsed2 as ->.
-    exists p1, p2. split; [reflexivity|]. split; [reflexivity|].
-    destruct (trailing_base _ _ _ _ _ _ Htr Hsa HT EL1 Hr1) as (b1 & F1 & N1 & B1 & S1).
-    destruct (trailing_base _ _ _ _ _ _ Htr Hsa HT EL2 Hr2) as (b2 & F2 & N2 & B2 & S2).
-    rewrite F1 in F2. injection F2 as <-.
+    pose proof (Spelling.resolve_pending_clears c _ _ Hr1) as N1.
+    pose proof (Spelling.resolve_pending_clears c _ _ Hr2) as N2.
     destruct (add_env_frame c r1 e1 N1 He1) as (Q1 & Q2 & _). destruct (add_defaults_frame c e1 s1 Q1 Hd1) as (_ & Q3 & _).
     destruct (add_env_frame c r2 e2 N2 He2) as (Q4 & Q5 & _). destruct (add_defaults_frame c e2 s2 Q4 Hd2) as (_ & Q6 & _).
-    split; [rewrite Q3, Q2, S1; exact Hsub|]. split; [rewrite Q6, Q5, S2; exact Hsub|].
-    intros y e Hy Hg Hy1 Hsrc.
-    pose proof (phases_cmdline _ _ _ _ _ N1 He1 Hd1 Hg Hy1 Hsrc) as Hq.
-    rewrite (B1 y Hy), <- (B2 y Hy) in Hq.
-    exact (phases_keep _ _ _ _ _ N2 He2 Hd2 Hg Hq).
+    pose proof (resolve_pending_sub c (mt_sub (mt p1)) p1 eq_refl) as K1. rewrite Hr1 in K1. cbn in K1. unfold Dispatch.S_ in K1.
+    pose proof (resolve_pending_sub c (mt_sub (mt p2)) p2 eq_refl) as K2. rewrite Hr2 in K2. cbn in K2. unfold Dispatch.S_ in K2.
+    split.
+    + intros a Hsink.
+      assert (Hsa : sink_arg c (l_pos ls') = Some a) by (apply (sink_from_at c 1 a); [exact Hsink|exact (proj1 Hpos)]).
+      destruct (trailing_sink_done c _ _ _ _ _ Htr Hsa EL1) as [l1 ->].
+      destruct (trailing_sink_done c _ _ _ _ _ Htr Hsa EL2) as [l2 ->].
+      injection Hparsed1 as ->. injection Hparsed2 as ->.
+      exists p1, p2. split; [reflexivity|]. split; [reflexivity|].
+      destruct (trailing_base c Hl Hst _ _ _ _ _ _ Htr Hsa HT EL1 Hr1) as (b1 & F1 & _ & B1 & S1).
+      destruct (trailing_base c Hl Hst _ _ _ _ _ _ Htr Hsa HT EL2 Hr2) as (b2 & F2 & _ & B2 & S2).
+      rewrite F1 in F2. injection F2 as <-.
+      split; [rewrite Q3, Q2, S1; exact Hsub|]. split; [rewrite Q6, Q5, S2; exact Hsub|].
+      intros y e Hy Hg Hy1 Hsrc.
+      pose proof (phases_cmdline c _ _ _ _ _ N1 He1 Hd1 Hg Hy1 Hsrc) as Hq.
+      rewrite (B1 y Hy), <- (B2 y Hy) in Hq.
+      exact (phases_keep c _ _ _ _ _ N2 He2 Hd2 Hg Hq).
+    + intros Hch.
+      assert (Hrg : in_range c (l_pos ls')).
+      { apply (proj2 Hpos); [exact (proj1 (proj2 (chain_facts c Hch)))|exact (in_range_1 c Hch)]. }
+      destruct (chain_done c Hch _ _ _ _ Htr Hrg EL1) as [l1 ->].
+      destruct (chain_done c Hch _ _ _ _ Htr Hrg EL2) as [l2 ->].
+      injection Hparsed1 as ->. injection Hparsed2 as ->.
+      exists p1, p2. split; [reflexivity|]. split; [reflexivity|].
+      destruct (proj2 (proj2 (proj2 (proj2 (chain_facts c Hch)))) _ Hrg) as [a Eg].
+      destruct (chain_base c Hl Hch _ _ _ _ _ a Htr Eg EL1 Hr1) as (b1 & F1 & _ & B1).
+      destruct (chain_base c Hl Hch _ _ _ _ _ a Htr Eg EL2 Hr2) as (b2 & F2 & _ & B2).
+      rewrite F1 in F2. injection F2 as <-.
+      split; [rewrite Q3, Q2, K1, (chain_sub c Hch _ _ _ _ Htr EL1); exact Hsub|].
+      split; [rewrite Q6, Q5, K2, (chain_sub c Hch _ _ _ _ Htr EL2); exact Hsub|].
+      intros y e Hy Hg Hy1 Hsrc.
+      pose proof (phases_cmdline c _ _ _ _ _ N1 He1 Hd1 Hg Hy1 Hsrc) as Hq.
+      assert (Hy' : forall j a', l_pos ls' <= j -> get_pos c j = Some a' -> touched c a' y = false)
+        by (intros j a' _ Hg'; exact (Hy j a' Hg')).
+      rewrite (B1 y Hy'), <- (B2 y Hy') in Hq.
+      exact (phases_keep c _ _ _ _ _ N2 He2 Hd2 Hg Hq).
   - right. left. exists n, k, v, s0, r. split; reflexivity.
   - right. right. exists tk, r, s0. split; reflexivity.
 Qed.
-End LevelTop.
+End LevelThm.
 
 (** * The whole tree *)
 Definition sink_of := sink_from.
@@ -306,10 +196,12 @@ Fixpoint delivered (fuel : nat) (c : cmd) (t : list bytes) (m : matches) : Prop 
   match fuel with
   | O => False
   | S f =>
-      (forall a, sink_from c 1 a ->
-         ms_sub m = None /\
-         exists e gs early' t', fm_get (a_id a) (ms_args m) = Some e /\ m_raw e = gs ++ [early' ++ t']
-                                /\ m_source e = Some SCmdLine /\ tail_form c a t = Some t')
+      ((forall a, sink_from c 1 a ->
+          ms_sub m = None /\
+          exists e gs early' t', fm_get (a_id a) (ms_args m) = Some e /\ m_raw e = gs ++ [early' ++ t']
+                                 /\ m_source e = Some SCmdLine /\ tail_form c a t = Some t')
+       /\ (chainc c = true ->
+           ms_sub m = None /\ exists x pc, chain_filled c (fun y => fm_get y (ms_args m)) pc (x ++ t)))
       \/ (exists name sc sm, build_subcommand c name = Some sc /\ ms_sub m = Some (c_name sc, sm) /\ delivered f sc t sm)
       \/ (exists name vals, ms_sub m = Some (name, Matches [(ext_id, ext_marg (vals ++ dashdash :: t))] None))
   end.
@@ -330,8 +222,11 @@ Proof.
   destruct Hok as (Hwf & Happ & Hig & Hnh & Hdd & Hch).
   pose proof (lvl_of_wfc c Hwf Happ) as Hl. pose proof (lvl_store_of_wfc c Hwf Happ) as Hst.
   destruct (level_tail_verbatim c Hl Hst Hnh Hdd f pre t st0 st' Ht Hp0 H) as [Hc|[Hc|Hc]].
-  - cbn [delivered]. left. intros a Ha. destruct (Hc a Ha) as (st1 & e & gs & early' & t' & _ & G1 & G2 & G3 & G4 & G5).
-    split; [cbn; rewrite G1; exact Hs0|]. exists e, gs, early', t'. auto.
+  - cbn [delivered]. left. destruct Hc as [Hc1 Hc2]. split.
+    + intros a Ha. destruct (Hc1 a Ha) as (st1 & e & gs & early' & t' & _ & G1 & G2 & G3 & G4 & G5).
+      split; [cbn; rewrite G1; exact Hs0|]. exists e, gs, early', t'. auto.
+    + intros Hcc. destruct (Hc2 Hcc) as (st1 & x & pc & _ & G1 & G2).
+      split; [cbn; rewrite G1; exact Hs0|]. exists x, pc. exact G2.
   - destruct Hc as (n & k & v & st1 & r & EL). rewrite gmw_unfold in H.
     destruct (post_ok_inv c _ _ H) as (stp & s2 & s3 & Hparsed & _).
     pose proof (post_keeps_sub c (mt_sub (mt stp)) (ROk stp) eq_refl) as Hk.
@@ -364,10 +259,14 @@ Fixpoint prefix_same (fuel : nat) (c : cmd) (m1 m2 : matches) : Prop :=
   match fuel with
   | O => False
   | S f =>
-      (forall a, sink_from c 1 a ->
-         ms_sub m1 = None /\ ms_sub m2 = None /\
-         forall y e, touched c a y = false -> find_group c y = None ->
-                     fm_get y (ms_args m1) = Some e -> m_source e = Some SCmdLine -> fm_get y (ms_args m2) = Some e)
+      ((forall a, sink_from c 1 a ->
+          ms_sub m1 = None /\ ms_sub m2 = None /\
+          forall y e, touched c a y = false -> find_group c y = None ->
+                      fm_get y (ms_args m1) = Some e -> m_source e = Some SCmdLine -> fm_get y (ms_args m2) = Some e)
+       /\ (chainc c = true ->
+           ms_sub m1 = None /\ ms_sub m2 = None /\
+           forall y e, (forall j a', get_pos c j = Some a' -> touched c a' y = false) -> find_group c y = None ->
+                       fm_get y (ms_args m1) = Some e -> m_source e = Some SCmdLine -> fm_get y (ms_args m2) = Some e))
       \/ (exists name sc sm1 sm2, build_subcommand c name = Some sc /\ ms_sub m1 = Some (c_name sc, sm1)
                                   /\ ms_sub m2 = Some (c_name sc, sm2) /\ ms_args m1 = ms_args m2
                                   /\ prefix_same f sc sm1 sm2)
@@ -401,8 +300,11 @@ Proof.
   destruct Hok as (Hwf & Happ & Hig & Hnh & Hdd & Hch).
   pose proof (lvl_of_wfc c Hwf Happ) as Hl. pose proof (lvl_store_of_wfc c Hwf Happ) as Hst.
   destruct (level_prefix_entries c Hl Hst Hnh Hdd f pre t1 t2 st0 s1 s2 Hp0 H1 H2) as [Hc|[Hc|Hc]].
-  - cbn [prefix_same]. left. intros a Ha. destruct (Hc a Ha) as (l1 & l2 & _ & _ & G1 & G2 & G3).
-    split; [cbn; rewrite G1; exact Hs0|]. split; [cbn; rewrite G2; exact Hs0|]. exact G3.
+  - cbn [prefix_same]. left. destruct Hc as [Hc1 Hc2]. split.
+    + intros a Ha. destruct (Hc1 a Ha) as (l1 & l2 & _ & _ & G1 & G2 & G3).
+      split; [cbn; rewrite G1; exact Hs0|]. split; [cbn; rewrite G2; exact Hs0|]. exact G3.
+    + intros Hcc. destruct (Hc2 Hcc) as (l1 & l2 & _ & _ & G1 & G2 & G3).
+      split; [cbn; rewrite G1; exact Hs0|]. split; [cbn; rewrite G2; exact Hs0|]. exact G3.
   - destruct Hc as (n & k & v & st1 & r & EL1 & EL2). rewrite gmw_unfold in H1, H2.
     destruct (post_ok_inv c _ _ H1) as (p1 & q1 & e1 & Hparsed1 & A1 & A2 & A3).
     destruct (post_ok_inv c _ _ H2) as (p2 & q2 & e2 & Hparsed2 & B1 & B2 & B3).
@@ -675,3 +577,39 @@ Proof.
   split; [vm_compute; reflexivity|]. split; [vm_compute; reflexivity|]. split; [vm_compute; reflexivity|].
   split; [vm_compute; discriminate|vm_compute; reflexivity].
 Qed.
+
+(** * Non-vacuity of the chain class: [prog [-f] <src> <dst> [rest]...] *)
+Definition z_src : arg := (arg_new [115]) <| a_required := true |>.
+Definition z_dst : arg := (arg_new [100]) <| a_required := true |>.
+Definition z_rest : arg := (arg_new [114]) <| a_num := Some {| vmin := 0; vmax := usize_max |} |>.
+Definition z_c0 : cmd := (cmd_new [112]) <| c_args := [x_flag; z_src; z_dst; z_rest] |> <| c_bin_name := Some [112] |>.
+Definition w_a : bytes := [45; 97].
+
+Example ex_chain_class : esc_class z_c0 = true /\ chainc (build_self z_c0) = true.
+Proof. split; vm_compute; reflexivity. Qed.
+
+(** [prog -f -- -a --help x --]: [-a] is the source, [--help] the destination, [x --] the rest *)
+Example ex_chain_run :
+  match parse_top z_c0 ([112] :: [w_f] ++ dashdash :: [w_a; t_help; w_x; dashdash]) with
+  | OOk (Matches args None) =>
+      opt_map m_raw (fm_get [115] args) = Some [[w_a]] /\ opt_map m_raw (fm_get [100] args) = Some [[t_help]] /\
+      opt_map m_raw (fm_get [114] args) = Some [[w_x; dashdash]] /\ opt_map m_raw (fm_get [102] args) = Some [[s_true]]
+  | _ => False
+  end.
+Proof. vm_compute. repeat split; reflexivity. Qed.
+
+(** [prog a -- --help -x]: the source was given before the escape, the counter is at the destination *)
+Example ex_chain_run_mid :
+  match parse_top z_c0 ([112] :: [w_v] ++ dashdash :: [t_help; w_x]) with
+  | OOk (Matches args None) =>
+      opt_map m_raw (fm_get [115] args) = Some [[w_v]] /\ opt_map m_raw (fm_get [100] args) = Some [[t_help]] /\
+      opt_map m_raw (fm_get [114] args) = Some [[w_x]]
+  | _ => False
+  end.
+Proof. vm_compute. repeat split; reflexivity. Qed.
+
+(** the flag is untouched by every positional *)
+Example ex_chain_untouched :
+  forallb (fun a => if is_some (a_index a) then negb (touched (build_self z_c0) a [102]) else true)
+          (c_args (build_self z_c0)) = true.
+Proof. vm_compute. reflexivity. Qed.
